@@ -1,12 +1,12 @@
 package main
 
 import (
-	"os"
 	"fmt"
 	"go/ast"
 	"go/constant"
 	"go/token"
 	"go/types"
+	"os"
 	"regexp"
 	"sort"
 	"strings"
@@ -1982,13 +1982,43 @@ func operandFingerprint(s invSite) string {
 				return renderVal(a[0], 0)
 			}
 		}
+	case "coinsub", "newcoin":
+		if c, ok := s.instr.(ssa.CallInstruction); ok {
+			var parts []string
+			for _, a := range c.Common().Args {
+				parts = append(parts, renderVal(a, 0))
+			}
+			return strings.Join(parts, " ; ")
+		}
+	case "index":
+		switch x := s.instr.(type) {
+		case *ssa.IndexAddr:
+			return renderVal(x.X, 0) + " [ " + renderVal(x.Index, 0) + " ]"
+		case *ssa.Index:
+			return renderVal(x.X, 0) + " [ " + renderVal(x.Index, 0) + " ]"
+		}
 	}
 	return ""
 }
 
 // vettedOperands: the operand each numeric vetted entry was written for (see operandFingerprint).
 var vettedOperands = map[string]string{
-	"quo @ x/cfeminter/types.LinearMinting.AmountToMint : sdk/types.Dec.QuoInt64":       "(time.Time.UnixMilli(<*time.Time>) - time.Time.UnixMilli(<time.Time>))",
-	"quo @ x/cfeminter/types.LinearMinting.CalculateInflation : sdk/types.Dec.QuoInt64": "time.Time.Sub(<*time.Time>,<time.Time>)",
-	"quo @ x/cfevesting/keeper.Keeper.UnlockUnbondedContinuousVestingAccountCoins : sdk/types.Dec.Quo": "types.NewDecFromInt(types.Coins.AmountOf(types.ContinuousVestingAccount.GetVestingCoins(types.AccountKeeper.GetAccount(…,…,…).(*sdk/x/auth/vesting/types.ContinuousVestingAccount)#0,types.Context.BlockTime(<sdk/types.Context>)),<*sdk/types.Coin>.Denom))",
+	"coinsub @ x/cfedistributor/keeper.Keeper.StartDistributionProcess : sdk/types.DecCoins.Sub #2":              "phi ; keeper.calculatePercentage(<*x/cfedistributor/types.SubDistributor>.Destinations.BurnShare,<sdk/types.DecCoins>)",
+	"coinsub @ x/cfedistributor/keeper.Keeper.StartDistributionProcess : sdk/types.DecCoins.Sub":                 "phi ; keeper.calculatePercentage(<**x/cfedistributor/types.DestinationShare>.Share,<sdk/types.DecCoins>)",
+	"coinsub @ x/cfedistributor/keeper.Keeper.prepareCoinToDistributeForMainAccount : sdk/types.DecCoins.Sub #2": "types.DecCoins.Sub(types.NewDecCoinsFromCoins(keeper.Keeper.GetAccountCoinsForModuleAccount(<x/cfedistributor/keeper.Keeper>,<sdk/types.Context>,\"distributor_main_account\")),keeper.getRamainsSum(<*[]x/cfedistributor/types.State>)) ; <sdk/types.DecCoins>",
+	"coinsub @ x/cfedistributor/keeper.Keeper.prepareCoinToDistributeForMainAccount : sdk/types.DecCoins.Sub":    "types.NewDecCoinsFromCoins(keeper.Keeper.GetAccountCoinsForModuleAccount(<x/cfedistributor/keeper.Keeper>,<sdk/types.Context>,\"distributor_main_account\")) ; keeper.getRamainsSum(<*[]x/cfedistributor/types.State>)",
+	"coinsub @ x/cfevesting/keeper.Keeper.UnlockUnbondedContinuousVestingAccountCoins : sdk/types.Coins.Sub #2":  "types.AccountKeeper.GetAccount(…,…,…).(*sdk/x/auth/vesting/types.ContinuousVestingAccount)#0.BaseVestingAccount.OriginalVesting ; <*[1]sdk/types.Coin>[:]",
+	"coinsub @ x/cfevesting/keeper.Keeper.UnlockUnbondedContinuousVestingAccountCoins : sdk/types.Coins.Sub":     "types.AccountKeeper.GetAccount(…,…,…).(*sdk/x/auth/vesting/types.ContinuousVestingAccount)#0.BaseVestingAccount.OriginalVesting ; <*[1]sdk/types.Coin>[:]",
+	"index @ x/cfedistributor/keeper.Keeper.addSharesToState : index []x/cfedistributor/types.State #2":          "phi [ phi ]",
+	"index @ x/cfedistributor/keeper.Keeper.addSharesToState : index []x/cfedistributor/types.State":             "phi [ phi ]",
+	"index @ x/cfeminter/types.Params.validateMintersEndTimeValue : index []*x/cfeminter/types.Minter #2":        "<*x/cfeminter/types.Params>.Minters [ (<int> - 1) ]",
+	"index @ x/cfeminter/types.Params.validateMintersEndTimeValue : index []*x/cfeminter/types.Minter #3":        "<*x/cfeminter/types.Params>.Minters [ (<int> - 1) ]",
+	"index @ x/cfeminter/types.Params.validateMintersEndTimeValue : index []*x/cfeminter/types.Minter":           "<*x/cfeminter/types.Params>.Minters [ (<int> - 1) ]",
+	"int64 @ x/cfevesting/keeper.Keeper.WithdrawAllAvailable$1 : math.Int.Int64":                                 "?.Amount",
+	"newcoin @ x/cfevesting/keeper.Keeper.UnlockUnbondedContinuousVestingAccountCoins : sdk/types.NewCoin":       "<*sdk/types.Coin>.Denom ; types.Dec.TruncateInt(types.Dec.Quo(types.Dec.Mul(types.NewDecFromInt(<*sdk/types.Coin>.Amount),types.NewDecFromInt(types.Coins.AmountOf(….OriginalVesting,….Denom))),types.NewDecFromInt(types.Coins.AmountOf(types.ContinuousVestingAccount.GetVestingCoins(…#0,types.Context.BlockTime(<sdk/types.Context>)),<*sdk/types.Coin>.Denom))))",
+	"newcoin @ x/cfevesting/keeper.Keeper.WithdrawAllAvailable : sdk/types.NewCoin #2":                           "keeper.Keeper.GetParams(<*x/cfevesting/keeper.Keeper>,<sdk/types.Context>).Denom ; phi",
+	"newcoin @ x/cfevesting/keeper.Keeper.newVestingAccount : sdk/types.NewCoin #2":                              "keeper.Keeper.GetParams(<*x/cfevesting/keeper.Keeper>,<sdk/types.Context>).Denom ; types.Dec.TruncateInt(types.Dec.Sub(types.NewDecFromInt(<math.Int>),types.Dec.Mul(types.NewDecFromInt(<math.Int>),<sdk/types.Dec>)))",
+	"quo @ x/cfeminter/types.LinearMinting.AmountToMint : sdk/types.Dec.QuoInt64":                                "(time.Time.UnixMilli(<*time.Time>) - time.Time.UnixMilli(<time.Time>))",
+	"quo @ x/cfeminter/types.LinearMinting.CalculateInflation : sdk/types.Dec.QuoInt64":                          "time.Time.Sub(<*time.Time>,<time.Time>)",
+	"quo @ x/cfevesting/keeper.Keeper.UnlockUnbondedContinuousVestingAccountCoins : sdk/types.Dec.Quo":           "types.NewDecFromInt(types.Coins.AmountOf(types.ContinuousVestingAccount.GetVestingCoins(types.AccountKeeper.GetAccount(…,…,…).(*sdk/x/auth/vesting/types.ContinuousVestingAccount)#0,types.Context.BlockTime(<sdk/types.Context>)),<*sdk/types.Coin>.Denom))",
 }
